@@ -94,6 +94,157 @@ class Flow:
         new = T(at, depth).visit(clone(expr))
         return ast.fix_missing_locations(new)
 
+    def _def_value(self, st, name):
+        """value a defining statement binds to `name`, or None"""
+        if isinstance(st, ast.Assign):
+            for t in st.targets:
+                if isinstance(t, ast.Name) and t.id == name:
+                    return st.value
+                if isinstance(t, (ast.Tuple, ast.List)) and not any(isinstance(e, ast.Starred) for e in t.elts):
+                    for i, e in enumerate(t.elts):
+                        if isinstance(e, ast.Name) and e.id == name:
+                            if isinstance(st.value, (ast.Tuple, ast.List)) and len(st.value.elts) == len(t.elts):
+                                return st.value.elts[i]
+                            if isinstance(st.value, ast.Call):
+                                return ast.fix_missing_locations(ast.copy_location(ast.Subscript(value=st.value, slice=ast.Constant(i), ctx=ast.Load()), st.value))
+        if isinstance(st, ast.AnnAssign) and st.value is not None and isinstance(st.target, ast.Name) and st.target.id == name:
+            return st.value
+        return None
+
+    def _drop_overwritten(self, live, decide):
+        """among the definitions of one name that are consistent with the assumptions: a definition that is an
+        unconditional statement of an if-arm KNOWN to be taken overwrites every definition made before that `if`"""
+        out = list(live)
+
+        def chain_nodes(d):
+            """[(if node, polarity)] outermost first; None when a loop / try / with lies in between"""
+            res = []
+            child, n = d, parent(d)
+            while n is not None and not isinstance(n, (ast.FunctionDef, ast.AsyncFunctionDef)):
+                if isinstance(n, (ast.For, ast.While, ast.Try, ast.With)):
+                    return None
+                if isinstance(n, ast.If):
+                    if any(child is x for x in n.body):
+                        res.append((n, True))
+                    elif any(child is x for x in n.orelse):
+                        res.append((n, False))
+                child, n = n, parent(n)
+            res.reverse()
+            return res
+        for d2 in live:
+            if d2 == "param":
+                continue
+            c2 = chain_nodes(d2)
+            if not c2:
+                continue
+            for d1 in list(out):
+                if d1 is d2:
+                    continue
+                if d1 == "param":
+                    c1 = []
+                else:
+                    c1 = chain_nodes(d1)
+                    if c1 is None:
+                        continue
+                k = len(c1)
+                if len(c2) <= k or [(id(a_), p_) for a_, p_ in c2[:k]] != [(id(a_), p_) for a_, p_ in c1]:
+                    continue
+                if not all(decide(n_.test, d2) == pol for n_, pol in c2[k:]):
+                    continue
+                top = c2[k][0]
+                if d1 == "param" or (self._order(d1) < self._order(top) and id(d1) not in {id(x) for x in ast.walk(top)}):
+                    if d1 in out:
+                        out.remove(d1)
+        return out
+
+    def _order(self, st):
+        if not hasattr(self, "_pos"):
+            self._pos = {id(x): i for i, x in enumerate(self.stmts)}
+        return self._pos.get(id(st), getattr(st, "lineno", 0) * 1000)
+
+    def live_under(self, st, assume):
+        """False when the guards of statement `st` contradict the assumptions (condition text -> truth value)"""
+        for test, pol in guard_chain(st):
+            t = norm(self.resolve(test, at=test))
+            for k, v in assume.items():
+                neg = norm(ast.UnaryOp(op=ast.Not(), operand=clone(test)))
+                if (t == k or norm(test) == k) and v != pol:
+                    return False
+                if neg == k and (not v) != pol:
+                    return False
+        return True
+
+    def resolve_under(self, expr, assume, at=None, depth=6, stop=()):
+        """Like resolve, but path-conditioned: `assume` maps condition texts to truth values.  A name with several
+        reaching definitions is replaced when exactly one of them lies on a path consistent with the assumptions;
+        a conditional expression whose test is decided is replaced by the chosen arm."""
+        at = at if at is not None else expr
+        flow = self
+
+        def decide(test, where, depth):
+            t = norm(T(where, depth).visit(clone(test))) if depth > 0 else norm(test)
+            for k, v in assume.items():
+                if t == k or norm(test) == k:
+                    return v
+            if isinstance(test, ast.UnaryOp) and isinstance(test.op, ast.Not):
+                d = decide(test.operand, where, depth)
+                return None if d is None else (not d)
+            if isinstance(test, ast.BoolOp):
+                ds = [decide(v, where, depth) for v in test.values]
+                if isinstance(test.op, ast.And):
+                    if any(d is False for d in ds):
+                        return False
+                    return True if all(d is True for d in ds) else None
+                if any(d is True for d in ds):
+                    return True
+                return False if all(d is False for d in ds) else None
+            neg = norm(ast.UnaryOp(op=ast.Not(), operand=clone(test)))
+            for k, v in assume.items():
+                if neg == k:
+                    return not v
+            return None
+
+        class T(ast.NodeTransformer):
+            def __init__(self, at, depth):
+                self.at = at
+                self.depth = depth
+
+            def visit_Name(self, n):
+                if not isinstance(n.ctx, ast.Load) or self.depth <= 0 or n.id in stop:
+                    return n
+                ds = flow.defs(n.id, self.at)
+                live = []
+                for d in ds:
+                    if d == "param":
+                        live.append(d)
+                        continue
+                    ok = True
+                    for test, pol in guard_chain(d):
+                        v = decide(test, d, self.depth - 1)
+                        if v is not None and v != pol:
+                            ok = False
+                    if ok:
+                        live.append(d)
+                live = flow._drop_overwritten(live, lambda t, w: decide(t, w, self.depth - 1))
+                if len(live) != 1 or live[0] == "param":
+                    return n
+                value = flow._def_value(live[0], n.id)
+                if value is None:
+                    return n
+                return T(live[0], self.depth - 1).visit(clone(value))
+
+            def visit_IfExp(self, n):
+                v = decide(n.test, self.at, self.depth - 1)
+                if v is None:
+                    return self.generic_visit(n)
+                return self.visit(n.body if v else n.orelse)
+
+            def visit_Lambda(self, n):
+                return n
+
+        new = T(at, depth).visit(clone(expr))
+        return ast.fix_missing_locations(new)
+
     def prov(self, expr, at=None, depth=8):
         """Provenance: set of leaves the value of expr may derive from:
         ('param', name) ('attr', dotted) ('call', dotted-callee) ('const', repr) ('name', id)
@@ -359,3 +510,28 @@ def elementwise_elt(comp, index="_i"):
                 return clone(m[n.id])
             return n
     return ast.fix_missing_locations(T().visit(clone(comp.elt)))
+
+
+def ends_in_jump(stmts):
+    return bool(stmts) and isinstance(stmts[-1], (ast.Return, ast.Raise, ast.Continue, ast.Break))
+
+
+def arms(st, cond, siblings=None):
+    """(statements executed when `cond` holds, statements executed when it does not) for the if-statement `st`,
+    whichever way round it is spelled (`if cond: A else: B`, `if not cond: B else: A`, guard clause `if not cond: B; <jump>` followed
+    by A).  `siblings` is the statement list containing `st`: when one arm ends in a jump and there is no else, the
+    statements after `st` are the other arm.  None if `st` tests neither `cond` nor its negation."""
+    then, other = list(st.body), list(st.orelse)
+    if not other and siblings is not None and ends_in_jump(then):
+        k = [i for i, s in enumerate(siblings) if s is st]
+        if k:
+            other = list(siblings[k[0] + 1:])
+    t = norm(st.test)
+    neg = norm(ast.UnaryOp(op=ast.Not(), operand=clone(st.test)))
+    if t == cond:
+        return then, other
+    if neg == cond:
+        return other, then
+    if isinstance(st.test, ast.UnaryOp) and isinstance(st.test.op, ast.Not) and norm(st.test.operand) == cond:
+        return other, then
+    return None
